@@ -264,3 +264,72 @@ def analyse_hash(mir_text, kinds, exclude=("Custom",)):
     if "(error" in p.stdout or res not in ("sat", "unsat"):
         res = "error"
     return {"res": res, "cross": [(kinds[a], kinds[b]) for a, b in cross], "mixes_discriminant": mixes_discriminant, "dt": time.time() - t0}
+
+
+# E3n, second table: a kind that the equality handler compares BY VALUE must not be hashed BY IDENTITY.
+IDENT = re.compile(r"(::|^)(as_ptr|as_ptr_usize)(::<.*>)?$")
+HASH_VALUE_EXPR = {"ByteVector": ("(bytes 1 2)", "(bytes 1 2)"), "MutableVector": ("(vector (vector 1) 2)", "(vector (vector 1) 2)"), "VectorV": ("(immutable-vector (vector 1) 2)", "(immutable-vector (vector 1) 2)"),
+                   "StringV": ("\"ab\"", "(string-append \"a\" \"b\")"), "ListV": ("(list (vector 1) 2)", "(list (vector 1) 2)"), "Pair": ("(cons (vector 1) 2)", "(cons (vector 1) 2)"),
+                   "HashMapV": ("(hash 'a (vector 1))", "(hash 'a (vector 1))"), "HashSetV": ("(hashset 1 2)", "(hashset 2 1)"), "Boxed": ("(box-strong 1)", "(box-strong 1)"),
+                   "BigNum": ("(expt 10 30)", "(expt 10 30)"), "Rational": ("1/2", "(/ 2 4)"), "Complex": ("(make-rectangular 1 2)", "(make-rectangular 1 2)"),
+                   "HeapAllocated": ("(box 1)", "(box 1)"), "CustomStruct": None, "SyntaxObject": None}
+
+
+def analyse_hash_identity(mir_text, kinds, exclude=("Custom",)):
+    """identity_hash(k): the arm of `Hash::hash` for kind k (followed with the kind known) hashes a pointer (`as_ptr`,
+    `as_ptr_usize`); value_eq(k): the (k, k) arm of the equality handler applies something other than a pointer
+    comparison to the two payloads (a content comparison, a length comparison, or it queues the children).
+    Query: exists k with identity_hash(k) and value_eq(k)."""
+    import p_eqsides
+    funcs = mir.parse(mir_text, lambda n: n.endswith("::visit") or n.endswith("::hash"))
+    hashf = None
+    for f in funcs.values():
+        if f.name.endswith("::hash") and "<impl at" in f.name and "rvals.rs" in f.name and re.match(r"_1: &(?:rvals::)?SteelVal, _2: &mut H", f.args_s.strip()):
+            hashf = f
+    if hashf is None:
+        raise ValueError("Hash::hash for SteelVal not found in the MIR dump")
+    n = len(kinds)
+    dsw = {bb: t for bb, (t, place) in _disc_switches(hashf).items()}
+    big = [bb for bb, t in dsw.items() if len(t["targets"]) >= 10]
+    if not big:
+        raise ValueError("no switch on the value's kind in Hash::hash")
+    sw = dsw[max(big)]
+    tg = dict(sw["targets"])
+    ident = set()
+    for k in range(n):
+        st = tg.get(k, sw["otherwise"])
+        seen, stack = set(), [st]
+        while stack:
+            x = stack.pop()
+            if x is None or x in seen or x not in hashf.blocks or hashf.blocks[x].cleanup:
+                continue
+            seen.add(x)
+            stack.extend(_succ(hashf.blocks[x].term))
+        for x in seen:
+            t = hashf.blocks[x].term
+            if t.get("kind") == "call" and IDENT.search(re.sub(r"::<[^>]*>", "", t["callee"].strip())):
+                ident.add(k)
+    # value_eq from the sided sites of the handler
+    f, sites, iters, lens = p_eqsides.tables(mir_text)
+    per = {}
+    for s_ in sites:
+        for kname in s_["kinds"]:
+            per.setdefault(kname, []).append(s_["what"])
+    value_eq = set()
+    for kname, whats in per.items():
+        if any(not re.search(r"ptr_eq", w) for w in whats):
+            value_eq.add(kinds.index(kname)) if kname in kinds else None
+    for kname in iters:
+        if kname in kinds:
+            value_eq.add(kinds.index(kname))
+    ident = {k for k in ident if kinds[k] not in exclude}
+    t0 = time.time()
+    a = " ".join("(= k (_ bv%d 8))" % k for k in sorted(ident))
+    b = " ".join("(= k (_ bv%d 8))" % k for k in sorted(value_eq))
+    q = "(set-logic QF_BV)\n(declare-const k (_ BitVec 8))\n(assert (or false %s))\n(assert (or false %s))\n(check-sat)\n" % (a, b)
+    p = subprocess.run(["z3", "-in", "-T:30"], input=q, capture_output=True, text=True)
+    res = p.stdout.strip().split("\n")[0] if p.stdout.strip() else "error"
+    if "(error" in p.stdout or res not in ("sat", "unsat"):
+        res = "error"
+    return {"res": res, "identity_hashed": [kinds[k] for k in sorted(ident)], "compared_by_value": [kinds[k] for k in sorted(value_eq)],
+            "bad": [kinds[k] for k in sorted(ident & value_eq)], "dt": time.time() - t0}
